@@ -236,11 +236,40 @@ def _time_handle(unit, zone):
     return pf, str(df["t"].dtype)
 
 
+AS_INDEX = [False]
+
+
+def h_time_index(iu: int, iz: int, via_state: bool) -> bool:
+    """
+    pre: 0 <= iu <= 3 and 0 <= iz <= 2
+    post: __return__
+    """
+    # the same column chosen as the index of the result (to_pandas(index="t")): its predicted dtype and the zone handed
+    # to the allocator are unchanged
+    AS_INDEX[0] = True
+    try:
+        return _h_time_dtype(iu, iz, via_state)
+    finally:
+        AS_INDEX[0] = False
+
+
+def replay_h_time_index(iu, iz, via_state):
+    AS_INDEX[0] = True
+    try:
+        return replay_h_time_dtype(iu, iz, via_state)
+    finally:
+        AS_INDEX[0] = False
+
+
 def h_time_dtype(iu: int, iz: int, via_state: bool) -> bool:
     """
     pre: 0 <= iu <= 3 and 0 <= iz <= 2
     post: __return__
     """
+    return _h_time_dtype(iu, iz, via_state)
+
+
+def _h_time_dtype(iu, iz, via_state):
     # a timestamp column of any unit, naive or zone-aware, as this library's writer describes it: the handle predicts
     # the frame's own dtype (unit and zone), keeps predicting it after a trip through __getstate__ / __setstate__, and
     # asks the allocator for that zone
@@ -266,12 +295,16 @@ def _time_dtype(iu, iz, via_state):
     saved = api.dataframe
     api.dataframe = _DFMod
     try:
-        pf.pre_allocate(2, ["t", "a"], None, None)
+        if AS_INDEX[0]:
+            pf.pre_allocate(2, ["a"], None, "t")
+        else:
+            pf.pre_allocate(2, ["t", "a"], None, None)
     finally:
         api.dataframe = saved
     r = REC[0]
     zone = ZONES[iz]
-    return [str(t) for t in r["types"]][0] == want and r["timezones"] == ({"t": zone} if zone else {})
+    got_type = str(r["index_types"][0]) if AS_INDEX[0] else [str(t) for t in r["types"]][0]
+    return got_type == want and r["timezones"] == ({"t": zone} if zone else {})
 
 
 def _pick_i(v, lo, hi):
@@ -298,7 +331,7 @@ def replay_h_time_dtype(iu, iz, via_state):
         if via_state:
             pf = pickle.loads(pickle.dumps(pf))
         pred = str(pf.dtypes["t"])
-        out = pf.to_pandas()["t"]
+        out = pf.to_pandas(index="t").index if AS_INDEX[0] else pf.to_pandas()["t"]
         if pred != str(df["t"].dtype) or str(out.dtype) != pred or list(out) != list(df["t"]):
             return True, "timestamp column %s%s: handle predicts %s, read gives %s (%r)" % (
                 df["t"].dtype, " (pickled handle)" if via_state else "", pred, out.dtype, list(out)[:1])
